@@ -566,13 +566,13 @@ def push_loop_specs(tier):
            ['1', '2', '3', '4', '1234', '4321', '41', '14', '1113', '22221', '333', '1421312']
     return [(t, p) for t in totals for p in pats]
 
-def push_loop_one(root, total, pat):
+def push_loop_one(root, total, pat, with_model=True):
     """runs `runner --pushloop` (real crate) and `model_driver --pushloop` (extracted GrowSim.gstep); returns
     (property_violation or None, correspondence_difference or None, growth_events)"""
     rn = os.path.join(root, '.cache', 'harness-target', 'release', 'runner')
     md = os.path.join(root, '.cache', 'model', 'model_driver')
     rc1, o1 = sh([rn, '--pushloop', str(total), pat], 600)
-    rc2, o2 = sh([md, '--pushloop', str(total), pat], 600)
+    rc2, o2 = sh([md, '--pushloop', str(total), pat], 600) if with_model else (0, '')
     real = [l.split() for l in o1.splitlines() if l and not l.startswith('WARNING')]
     mod = [l.split() for l in o2.splitlines() if l and not l.startswith('WARNING')]
     viol = None
@@ -616,19 +616,19 @@ def push_loop_one(root, total, pat):
     diff = None
     a = [' '.join(l[:3]) if l[0] == 'G' else ' '.join(l) for l in real if l[0] in ('G', 'END')]
     b = [' '.join(l[:3]) if l[0] == 'G' else ' '.join(l) for l in mod if l[0] in ('G', 'END')]
-    if a != b:
+    if with_model and a != b:
         j = next((x for x in range(min(len(a), len(b))) if a[x] != b[x]), min(len(a), len(b)))
         diff = 'real: %s | GrowSim.gstep: %s' % (a[j] if j < len(a) else '(end)', b[j] if j < len(b) else '(end)')
     return (viol, diff, k)
 
-def push_loops(root, pid, res, tier, stats, only=None):
+def push_loops(root, pid, res, tier, stats, only=None, with_model=True):
     specs = [only] if only else push_loop_specs(tier)
     import concurrent.futures as cf
     bad_corr = []
     nloops = 0
     nevents = 0
     with cf.ThreadPoolExecutor(max_workers=8) as ex:
-        outs = list(ex.map(lambda tp: (tp, push_loop_one(root, tp[0], tp[1])), specs))
+        outs = list(ex.map(lambda tp: (tp, push_loop_one(root, tp[0], tp[1], with_model)), specs))
     for (total, pat), (viol, diff, k) in outs:
         nloops += 1; nevents += k
         if viol and len(res.violations) < 5:
@@ -636,8 +636,9 @@ def push_loops(root, pid, res, tier, stats, only=None):
             res.violations.append(('push loop of %d bytes (widths %s): %s' % (total, pat, viol), rp, True, 'push_loop'))
         if diff:
             bad_corr.append('pushloop %d %s: %s' % (total, pat, diff))
-    res.oblige('push loops: real crate follows the extracted GrowSim.gstep (capacity at every growth, requests, copied) on %d loops' % nloops,
-               not bad_corr, '\n'.join(bad_corr[:5]))
+    if with_model:
+        res.oblige('push loops: real crate follows the extracted GrowSim.gstep (capacity at every growth, requests, copied) on %d loops' % nloops,
+                   not bad_corr, '\n'.join(bad_corr[:5]))
     res.cov['push_loops'] = nloops
     res.cov['push_loop_growth_events'] = nevents
     stats['cases'] += nloops
@@ -674,7 +675,7 @@ def decide(root, pid, tier, seed, replay=None):
         cfg = PROPS.get(pid, dict(profiles=['valid'], n=(500, 5000)))
         if replay and open(replay).read().startswith('pushloop '):
             t = open(replay).read().split()
-            push_loops(root, pid, res, tier, stats, only=(int(t[1]), t[2]))
+            push_loops(root, pid, res, tier, stats, only=(int(t[1]), t[2]), with_model=st['model']['ok'])
         elif replay:
             explore(root, pid, res, open(replay).read(), 'replay', stats)
         else:
@@ -691,8 +692,9 @@ def decide(root, pid, tier, seed, replay=None):
                     done += c; start += c
                     if len(res.violations) >= 5:
                         break
-    if pid == 'C12' and not replay and st['model']['ok'] and st['harness']['ok']:
-        push_loops(root, pid, res, tier, stats)
+    if pid == 'C12' and not replay and st['harness']['ok']:
+        # (without a model — e.g. the translator rejected the source — the loops are still checked against the property's bounds)
+        push_loops(root, pid, res, tier, stats, with_model=st['model']['ok'])
     # ---- extraction cross-check: the OCaml run of the extracted model against vm_compute inside Coq
     if pid in ('C01', 'C03', 'C05', 'C09', 'C13') and not replay and st['model']['ok'] and st['coq_theories']['ok']:
         import coqcases
